@@ -74,6 +74,18 @@ func ToGo(v *schema.V, rt reflect.Type) reflect.Value {
 			return r
 		}
 	}
+	if v.T.Kind == schema.Typeref && v.T.Custom && rt.Kind() == reflect.Struct {
+		// the hand-written custom type: struct{ V <primitive> }
+		out := reflect.New(rt).Elem()
+		f := out.FieldByName("V")
+		if !f.IsValid() {
+			fail("custom typeref %s: Go type %s has no field V", v.T.Name, rt)
+		}
+		under := *v
+		under.T = v.T.Elem
+		f.Set(ToGo(&under, f.Type()))
+		return out
+	}
 	out := reflect.New(rt).Elem()
 	switch v.T.Base().Kind {
 	case schema.Int32, schema.Int64:
@@ -195,6 +207,15 @@ func FromGo(rv reflect.Value, t *schema.Type) *schema.V {
 		if r, ok := CustomFromGo(rv, t); ok {
 			return r
 		}
+	}
+	if t.Kind == schema.Typeref && t.Custom && rv.Kind() == reflect.Struct {
+		f := rv.FieldByName("V")
+		if !f.IsValid() {
+			fail("custom typeref %s: Go type %s has no field V", t.Name, rv.Type())
+		}
+		under := FromGo(f, t.Elem)
+		under.T = t
+		return under
 	}
 	switch t.Base().Kind {
 	case schema.Int32, schema.Int64:
